@@ -4,7 +4,10 @@ Writer/reader agreement rules over the three formats (JsonSerializer tagging, cl
 adapter) and the pydantic hooks that feed them.  Decided: key sets, name forms, union/alias inventories, recursion
 of the tagging encoder into hook-injected containers, hook override completeness, exception payload form, and (R9) that the
 presence test under which a hook writes a private attribute skips only the value the __init__ chain restores by itself
-(writer guard and reader default evaluated together over a finite sample of the attribute's declared type).
+(writer guard and reader default evaluated together over a finite sample of the attribute's declared type), and (R10) that the
+payload a writer stores as a bare dump (JsonSerializer's tagged dicts, the client envelope's `value`) reaches the inverse
+constructor on the read side without depending on the tagging decoder: the reader interprets exactly the parts of the wire
+form the writer encoded (dependence slice of the constructor argument + CFG reachability).
 Not decided: value equality for arbitrary payloads (quantifies over inputs), pydantic's own field round trip,
 classes that are not reachable by an attribute path from their module (`<locals>`).
 """
@@ -47,6 +50,15 @@ EXPLANATION = (
     "from a dump with the key (the forwarded keyword expression) and without it (parameter default / PrivateAttr default). Obligation: v comes back as v, same type. A hook may therefore omit exactly "
     "the value the reader restores by itself (`is not None` for result, empty for _data) and nothing else; a truthiness test on an `Any` attribute loses 0 / False / 0.0 / '' / [] / {} in all three formats. "
     "Guards about anything other than the object are left open (assumed to hold); a guard on the attribute that cannot be evaluated is an analysis error. "
+    "R10 opaque payloads: the parts of the wire form the reader interprets must be exactly the parts the writer encoded. serialize_value stores the payload of a tagged dict as the bare dump "
+    "(value.model_dump(mode='json') / value.to_dict(); anything else is an analysis error) and the envelope writers store event.model_dump(mode='json'): none of it goes through the tagging encoder, and "
+    "the encoder cannot mark a user dict that carries the tag keys as literal (plain dicts are rebuilt key by key). Decided: for every inverse-constructor call under a tag branch of deserialize_value, for "
+    "every model_validate(<envelope>.value) in EventEnvelope.parse, the constructor argument does not depend on a reference to the tagging decoder (deserialize_value, or a function of serializers.py / events.py / "
+    "serializable_events.py that runs it, two calls deep; call or bare reference as in map(...)): may-dependence slice of the argument inside the reader (locals, rebinding of the parameter, in-place stores into it), "
+    "restricted to statements from which the constructor call is reachable in the CFG; and no model_validator / field_validator of the EventEnvelope* models refers to the decoder. Breaking it turns user data that "
+    "is itself shaped like the wire format (a ctx.to_dict() snapshot or relayed stored result inside a dynamic field, a StopEvent result, a dict / Any field) from the dict that was written into a model instance, "
+    "or makes the read raise ImportError when the named class is not importable. Planted readers (five interpreting shapes, two harmless uses of the decoder) in fixtures/c18/interpreted_payload.py are analysed on every run. "
+    "Not decided by R10: the same ambiguity for a tag-shaped dict stored at the top level of a value given to JsonSerializer (inherent in the format: the writer has no escape). "
     "R7 exception payload: what the writer records as the message (rendering str(exc) vs constructor args) must be what the reader feeds back (cls(msg) vs cls(*args)). "
     "NOT decided: equality of arbitrary payload values, behaviour of pydantic itself, tuples/sets (not JSON-representable), AddWaiter.requirements (dropped by design)."
 )
@@ -56,7 +68,7 @@ TRUSTED = [
     "pydantic: model_validate(model_dump(mode='json')) restores declared fields",
     "importlib.import_module / getattr semantics",
 ]
-TECHNIQUE = "writer/reader table agreement (keys, name forms, inventories) over the AST of the serializer hooks and validators; finite evaluation of hook guard + reader default over samples of the declared type"
+TECHNIQUE = "writer/reader table agreement (keys, name forms, inventories) over the AST of the serializer hooks and validators; finite evaluation of hook guard + reader default over samples of the declared type; dependence slice + CFG reachability of the payload handed to the inverse constructors (no tagging decoder on an opaque payload)"
 
 EV = "workflows.events"
 SER = "workflows.context.serializers"
@@ -410,6 +422,120 @@ def _recurses_into(fn: ast.AST, kind: str, callee: str) -> bool:
     return found
 
 
+# ============================================================================ R10 envelope payloads are opaque to the reader
+
+ALL_INVERSE = {n for v in INVERSE.values() for n in v}
+DECODER = "deserialize_value"
+
+
+def _refs_to(e: ast.AST, names: set[str]) -> list[ast.AST]:
+    """References (call or bare, e.g. `map(self.deserialize_value, …)`) to one of `names` inside e."""
+    return [n for n in ast.walk(e) if (isinstance(n, ast.Attribute) and n.attr in names) or (isinstance(n, ast.Name) and isinstance(n.ctx, ast.Load) and n.id in names)]
+
+
+def _decoder_names(mods) -> set[str]:
+    """The tagging decoder and every function of the paired modules that runs it (two calls deep, by name)."""
+    dec = {DECODER}
+    for _ in range(2):
+        for m in mods:
+            for q, f in m.functions.items():
+                n = q.rsplit(".", 1)[-1]
+                if n not in dec and not n.startswith("__") and any(_refs_to(st, dec) for st in f.body):
+                    dec.add(n)
+    return dec
+
+
+def _ctor_payload(c: ast.Call) -> ast.AST | None:
+    if c.args:
+        return c.args[0]
+    return c.keywords[0].value if c.keywords and c.keywords[0].arg is not None else None
+
+
+def _interpreting_refs(fn: ast.AST, ctor: ast.Call, dec: set[str]) -> list[ast.AST]:
+    """References to the tagging decoder that the payload handed to the inverse constructor `ctor` may depend on: the
+    may-dependence slice of the argument inside fn (locals, rebinding of the parameter, in-place stores into it), restricted to
+    statements from which the constructor call can be reached in the CFG (a rebinding in another branch, or after the
+    call, does not flow into it)."""
+    from ..astx import dep_slice
+    from ..cfg import CFG
+
+    arg = _ctor_payload(ctor)
+    if arg is None:
+        return []
+    cfg = CFG(fn)
+    target = enclosing_stmt(ctor)
+    tnodes = set(cfg.nodes_of(target)) if target is not None else set()
+    out: list[ast.AST] = []
+    seen: set[int] = set()
+    for e in dep_slice(fn, arg).exprs:
+        for r in _refs_to(e, dec):
+            if id(r) in seen:
+                continue
+            seen.add(id(r))
+            st = enclosing_stmt(r)
+            snodes = cfg.nodes_of(st) if st is not None else []
+            if st is target or not tnodes or not snodes or cfg.reach(snodes) & tnodes:
+                out.append(r)
+    return out
+
+
+def _shown(r: ast.AST) -> str:
+    p = parent(r)
+    while p is not None and not isinstance(p, (ast.Call, ast.stmt)):
+        p = parent(p)
+    return " ".join(ast.unparse(p if isinstance(p, ast.Call) else r).split())[:70]
+
+
+_OPAQUE_WHY = ("the writer stores the dump as is and the tagging encoder has no escape for user dicts that carry the tag keys (a plain dict is rebuilt key by key), so a payload "
+               "that contains data shaped like the wire format itself ({'__is_pydantic': true, 'qualified_name': …, 'value': …}: a ctx.to_dict() snapshot, a relayed stored result, kept in a "
+               "dynamic field / StopEvent result / dict- or Any-typed field) is written as that dict but read back as a model instance, or the whole read raises ImportError / AttributeError "
+               "when the named class is not importable in the reading process; the reader may interpret exactly what the writer encoded: hand the stored payload to the constructor unchanged")
+
+
+def _payload_opacity_json(chk, ser, wfn, rfn, tagged, branches, rvar: str, dec: set[str]) -> int:
+    n = 0
+    for d, tag in tagged:
+        br = [b for b in branches if tag in _const_keys_read(b.test, rvar)]
+        if len(br) != 1:
+            n += 1  # R1 has reported the missing / ambiguous branch
+            continue
+        prod = _dict_get(d, "value")
+        ptxt = " ".join(ast.unparse(prod).split())[:50] if prod is not None else "?"
+        if prod is not None and _refs_to(prod, {"serialize_value"}):
+            raise AnchorError(f"C18.R10: serialize_value sends the `{tag}` payload `{ptxt}` through the tagging encoder; whether the reader may then decode it depends on an escape this rule does not model")
+        ctors = [c for st in br[0].body for c in ast.walk(st) if isinstance(c, ast.Call) and isinstance(c.func, ast.Attribute) and c.func.attr in ALL_INVERSE and _ctor_payload(c) is not None]
+        if not ctors:
+            n += 1  # R1 (inverse constructor) has reported it
+            continue
+        for c in ctors:
+            n += 1
+            refs = _interpreting_refs(rfn, c, dec)
+            chk.ob("C18.R10", f"the `{tag}` payload, stored by serialize_value as the bare dump `{ptxt}` (not sent through the tagging encoder), reaches `{c.func.attr}` in {rfn.name} uninterpreted "
+                   f"(the argument does not depend on the tagging decoder {DECODER})", not refs, m=ser, node=c, fn=rfn, instance=f"opaque:{tag}",
+                   reason=f"`{' '.join(ast.unparse(c).split())[:90]}` depends on " + ", ".join(f"`{_shown(r)}`" for r in refs[:3]) + ": " + _OPAQUE_WHY)
+    return n
+
+
+def _payload_opacity_envelope(chk, envm, parse: ast.AST, mv: list[ast.Call], dec: set[str]) -> int:
+    n = 0
+    for i, c in enumerate(mv, 1):
+        n += 1
+        refs = _interpreting_refs(parse, c, dec)
+        chk.ob("C18.R10", f"the client envelope's `value` (the bare model_dump(mode='json') of the event) reaches `{' '.join(ast.unparse(c).split())[:60]}` in EventEnvelope.parse uninterpreted "
+               f"(does not depend on the tagging decoder {DECODER})", not refs, m=envm, node=c, fn=parse, instance=f"opaque:EventEnvelope.parse#{i}",
+               reason="the argument depends on " + ", ".join(f"`{_shown(r)}`" for r in refs[:3]) + ": " + _OPAQUE_WHY)
+    # pydantic validators of the envelope models run inside EventEnvelope.model_validate(<wire dict>), i.e. on the stored value
+    for q, f in sorted(envm.functions.items()):
+        cls = enclosing_class(f)
+        if cls is None or not cls.name.startswith("EventEnvelope") or not (_deco(f, "model_validator") or _deco(f, "field_validator")):
+            continue
+        n += 1
+        refs = [r for st in f.body for r in _refs_to(st, dec)]
+        chk.ob("C18.R10", f"validator {q} of the client envelope does not run the tagging decoder over the stored value", not refs, m=envm, node=f, fn=f, instance=f"opaque:validator:{q}",
+               reason="it runs " + ", ".join(f"`{_shown(r)}`" for r in refs[:3]) + ": " + _OPAQUE_WHY)
+    return n
+
+
 def run(chk) -> None:
     repo = chk.repo
     ev, ser, ut, tk, rs, envm =(repo.module(x) for x in (EV, SER, UT, TK, RS, ENV))
@@ -439,7 +565,7 @@ def run(chk) -> None:
                reason=f"reader needs {sorted(rkeys - wkeys)} which the writer never writes")
         prod = _dict_get(d, "value")
         pname = last(call_name(prod)) if isinstance(prod, ast.Call) else None
-        cons = {last(call_name(c)) for st in b.body for c in ast.walk(st) if isinstance(c, ast.Call) and any("value" in _const_keys_read(a, rvar) for a in c.args)}
+        cons = {last(call_name(c)) for st in b.body for c in ast.walk(st) if isinstance(c, ast.Call) and any("value" in _const_keys_read(expand(a, st), rvar) for a in c.args)}
         if pname not in INVERSE:
             raise AnchorError(f"C18.R1: producer `{ast.unparse(prod)[:50]}` of the `{tag}` payload is not a known dump")
         chk.ob("C18.R1", f"the `{tag}` payload written by `{pname}` is read by its inverse ({sorted(INVERSE[pname])})", bool(cons & INVERSE[pname]), m=ser, node=b, fn=rfn, instance=f"inverse:{tag}",
@@ -454,6 +580,10 @@ def run(chk) -> None:
         r_rec = _recurses_into(rfn, kind, "deserialize_value")
         chk.ob("C18.R1", f"tagging recurses into {kind} values on both sides", w_rec == r_rec and w_rec, m=ser, node=wfn, fn=wfn, instance=f"recurse:{kind}",
                reason=f"writer recurses: {w_rec}, reader recurses: {r_rec}")
+    # R10: what the writer stored opaquely the reader hands over uninterpreted
+    dec = _decoder_names((ser, ev, envm))
+    chk.floor("C18.R10", "tagged payloads of JsonSerializer handed to an inverse constructor", _payload_opacity_json(chk, ser, wfn, rfn, tagged, branches, rvar, dec), 2)
+    _fixture_opacity(chk)
 
     # ------------------------------------------------------------------ hooks (R1b, R4, R6)
     hooks: dict[str, _Hook] = {}
@@ -734,8 +864,15 @@ def _name_forms(chk, repo, ev, ser, ut, envm, pairs) -> None:
     parse = envm.functions.get("EventEnvelope.parse")
     if parse is None:
         raise AnchorError("C18.R5: EventEnvelope.parse not found")
-    mv = [c for c in ast.walk(parse) if isinstance(c, ast.Call) and last(call_name(c)) == "model_validate" and any(isinstance(a, ast.Attribute) and a.attr == "value" for a in c.args)]
+    from ..astx import dep_slice
+
+    def from_value(c: ast.Call) -> bool:  # the argument is, or is computed from, <envelope>.value (locals followed)
+        a = _ctor_payload(c)
+        return a is not None and any(isinstance(x, ast.Attribute) and x.attr == "value" for e in dep_slice(parse, a).exprs for x in ast.walk(e))
+
+    mv = [c for c in ast.walk(parse) if isinstance(c, ast.Call) and last(call_name(c)) == "model_validate" and from_value(c)]
     chk.floor("C18.R5", "model_validate(<envelope>.value) readers in EventEnvelope.parse", len(mv), 2)
+    chk.floor("C18.R10", "client envelope readers (model_validate of the stored value) and envelope validators", _payload_opacity_envelope(chk, envm, parse, mv, _decoder_names((ser, ev, envm))), 3)
     # registry key form = written type form
     tw = [k.value for fn_q in ("EventEnvelopeWithMetadata.from_event", "EventEnvelope.from_event") for c in ast.walk(envm.functions[fn_q]) if isinstance(c, ast.Call) for k in c.keywords if k.arg == "type"]
     forms = {a.attr for v in tw for a in ast.walk(v) if isinstance(a, ast.Attribute) and a.attr in ("__name__", "__qualname__")}
@@ -1157,6 +1294,34 @@ def _fixture_selfcheck(chk, alias_names: set[str]) -> None:
     chk.floor("C18.R3", "planted raw Event/Exception/type[...] fields reported on fixtures/c18/planted.py", hits, 3)
 
 
+FIXTURE_OPAQUE = FIXTURE.parent / "interpreted_payload.py"
+
+
+def _fixture_opacity(chk) -> None:
+    """R10 expects no firing on the tree: planted readers (Bad*: the payload goes through the decoder in five shapes; Ok*: the
+    decoder is used where it cannot flow into the constructor argument) are analysed on every run."""
+    if not FIXTURE_OPAQUE.is_file():
+        raise AnchorError(f"C18: fixture {FIXTURE_OPAQUE} missing")
+    tree = ast.parse(FIXTURE_OPAQUE.read_text())
+    _set_parents(tree)
+    bad = ok = 0
+    for cls in tree.body:
+        if not isinstance(cls, ast.ClassDef):
+            continue
+        fns = {f.name: f for f in cls.body if isinstance(f, FuncNode)}
+        dec = {DECODER}
+        for _ in range(2):
+            dec |= {n for n, f in fns.items() if any(_refs_to(st, dec) for st in f.body)}
+        ctors = [c for c in ast.walk(fns[DECODER]) if isinstance(c, ast.Call) and isinstance(c.func, ast.Attribute) and c.func.attr in ALL_INVERSE]
+        hit = any(_interpreting_refs(fns[DECODER], c, dec) for c in ctors)
+        if not ctors or hit != cls.name.startswith("Bad"):
+            raise AnchorError(f"C18.R10: planted reader {cls.name} in fixtures/c18/interpreted_payload.py is {'reported' if hit else 'not reported'} ({len(ctors)} constructor calls)")
+        bad += hit
+        ok += not hit
+    chk.floor("C18.R10", "planted readers that interpret an opaque payload, reported on fixtures/c18/interpreted_payload.py", bad, 5)
+    chk.floor("C18.R10", "planted readers that use the decoder only off the payload's path, silent", ok, 2)
+
+
 # ============================================================================ twins
 
 _E = "packages/llama-index-workflows/src/workflows/events.py"
@@ -1281,6 +1446,31 @@ TWINS = [
     Twin("benign: None test through the public property", _E, "        if self._result is not None:\n", "        if self.result is not None:\n", None),
     Twin("benign: empty dict compared explicitly (the parent hook's harmless truthiness test)", _E, "        if self._data:\n            data[\"_data\"] = self._data", "        if self._data != {}:\n            data[\"_data\"] = self._data", None),
     Twin("benign: result always written, None included", _E, "        if self._result is not None:\n            data[\"result\"] = self._result\n", "        data[\"result\"] = self._result\n", None),
+    # R10 envelope payloads are opaque to the reader
+    Twin("pydantic payload rehydrated recursively before model_validate (seeded shape S127)", _S, 'return module_class.model_validate(data["value"])',
+         'return module_class.model_validate(\n                    self.deserialize_value(data["value"])\n                )', "C18.R10"),
+    Twin("component payload rehydrated recursively before from_dict (seeded shape S127)", _S, 'return module_class.from_dict(data["value"])', 'return module_class.from_dict(self.deserialize_value(data["value"]))', "C18.R10"),
+    Twin("payload decoded into a local first", _S, '                return module_class.model_validate(data["value"])',
+         '                payload = self.deserialize_value(data["value"])\n                return module_class.model_validate(payload)', "C18.R10"),
+    Twin("reader rehydrates the children of every dict before it looks at the tags", _S, '        if isinstance(data, dict):\n            if data.get("__is_pydantic")',
+         '        if isinstance(data, dict):\n            data = {k: self.deserialize_value(v) for k, v in data.items()}\n            if data.get("__is_pydantic")', "C18.R10"),
+    Twin("payload decoded in place before the tag tests", _S, '        if isinstance(data, dict):\n            if data.get("__is_pydantic")',
+         '        if isinstance(data, dict):\n            if "value" in data:\n                data["value"] = self.deserialize_value(data["value"])\n            if data.get("__is_pydantic")', "C18.R10"),
+    Twin("payload decoded through the string-level wrapper", _S, 'return module_class.model_validate(data["value"])', 'return module_class.model_validate(self.deserialize(json.dumps(data["value"])))', "C18.R10"),
+    Twin("client envelope value run through the tagging decoder before model_validate", _V, "                    return module_class.model_validate(event.value)",
+         "                    from workflows.context.serializers import JsonSerializer\n\n                    return module_class.model_validate(JsonSerializer().deserialize_value(event.value))", "C18.R10"),
+    Twin("client envelope value decoded through a local (registry arm)", _V, "                    return registry[event.type].model_validate(event.value)",
+         "                    from workflows.events import _deserialize_event\n\n                    value = _deserialize_event(event.value)\n                    return registry[event.type].model_validate(value)", "C18.R10"),
+    Twin("envelope before-validator decodes the stored value", _V, '                data = {**data, "value": data["data"]}\n        return data',
+         '                data = {**data, "value": data["data"]}\n            if "value" in data:\n                from workflows.context.serializers import JsonSerializer\n\n                data = {**data, "value": JsonSerializer().deserialize_value(data["value"])}\n        return data', "C18.R10"),
+    Twin("benign: payload handed over through a local", _S, '                return module_class.model_validate(data["value"])', '                payload = data["value"]\n                return module_class.model_validate(payload)', None),
+    Twin("benign: payload copied, not interpreted", _S, 'return module_class.model_validate(data["value"])', 'return module_class.model_validate(dict(data["value"]))', None),
+    Twin("benign: untagged dict rebuilt into the rebound parameter after the tag tests", _S, "            return {k: self.deserialize_value(v) for k, v in data.items()}\n        elif isinstance(data, list):",
+         "            data = {k: self.deserialize_value(v) for k, v in data.items()}\n            return data\n        elif isinstance(data, list):", None),
+    Twin("benign: list elements decoded into the rebound parameter (other branch)", _S, "            return [self.deserialize_value(item) for item in data]\n        return data",
+         "            data = [self.deserialize_value(item) for item in data]\n            return data\n        return data", None),
+    Twin("benign: envelope value through a local", _V, "                    return module_class.model_validate(event.value)", "                    payload = event.value\n                    return module_class.model_validate(payload)", None),
+    Twin("benign: writer side wraps nothing, reader result bound to a local", _S, '                return module_class.from_dict(data["value"])', '                component = module_class.from_dict(data["value"])\n                return component', None),
     # R7 (fires on the unchanged tree; twins only check that refactors do not change the verdict)
     Twin("benign: message local renamed", _E, '    exc_message = data["exception_message"]\n    try:\n        exc_cls = import_module_from_qualified_name(data["exception_type"])\n        return exc_cls(exc_message)\n    except (ImportError, AttributeError, ValueError):\n        return Exception(exc_message)',
          '    msg = data["exception_message"]\n    try:\n        exc_cls = import_module_from_qualified_name(data["exception_type"])\n        return exc_cls(msg)\n    except (ImportError, AttributeError, ValueError):\n        return Exception(msg)', None),
